@@ -293,6 +293,10 @@ var specialStmts = []string{
 	"SELECT 1 # ;\n",
 	"SELECT 1 #! ;\n, 2",
 	"SELECT 1 /* /* ; */ ; */",
+	"SELECT 1 /* a /*/ ; b */ c */",
+	"SELECT 1 /*/ ; /*/ + 2",
+	"SELECT 1 /* /*/ ; */ ; */ , 3",
+	"/* /*/*/ ; */ ; */ */ SELECT 1",
 	"SELECT a FROM t WHERE b = ';' -- ;;;\n AND c = \";\"",
 	"SELECT $$a;b$$",
 	"SELECT x'3b', ';'",
@@ -380,7 +384,7 @@ func injectSemiTrivia(r *Rng, text string) (string, bool) {
 		return "", false
 	}
 	at := pick(r, gaps)
-	ins := pick(r, []string{" /* ; */", " /*;*/", " -- ;\n", " --;\n", " # ;\n", " /* ; SELECT 1; */", "\n-- ; ; ;\n", " /* /* ; */ ; */"})
+	ins := pick(r, []string{" /* ; */", " /*;*/", " -- ;\n", " --;\n", " # ;\n", " /* ; SELECT 1; */", "\n-- ; ; ;\n", " /* /* ; */ ; */", " /* a /*/ ; b */ c */", " /*/ ; /*/", " /* /*/*/ ; */ ; */ */"})
 	return text[:at] + ins + text[at:], true
 }
 
@@ -658,7 +662,7 @@ func runC06(w *W) {
 	first := pp.qualify("SELECT 1", "special")
 	last := pp.qualify("SELECT 2", "special")
 	probes := []string{"SELECT 1 -- first; second\n + 2", "SELECT 'it''s; here' AS a", "SELECT 1 /* a; b */ + 2", "SELECT a <= b, c != d, e <> f, g || h, i::UInt8, x -> y", "SELECT 1.5e3, .5, a.1, db.02_t, 1_000",
-		"SELECT $$a;b$$, x'4142', {p:UInt8}", "SELECT \"a;b\", `c;d` FROM t", "SELECT a /* /* nested; */ */ , b # c;\n FROM t", "SELECT a >= 1 AND b <=> 2 OR NOT c"}
+		"SELECT $$a;b$$, x'4142', {p:UInt8}", "SELECT \"a;b\", `c;d` FROM t", "SELECT a /* /* nested; */ */ , b # c;\n FROM t", "SELECT a /* x /*/ ; y */ z */ , b", "SELECT a >= 1 AND b <=> 2 OR NOT c"}
 	nProbe := w.pickN(len(probes), len(probes)+60)
 	for k := 0; k < nProbe; k++ {
 		r := NewRng(w.Seed, uint64(k), 62)
